@@ -433,6 +433,8 @@ def do_call(pool, call):
         values = [[] if k == 1 else ([v] if v % 2 else [v, v + 100]) for k, v in enumerate(values)]
     elif call.get("elem") == "tuple":
         values = [(v,) if v % 2 else (v, v + 100) for v in values]
+    elif call.get("elem") == "equal-but-distinct":      # elements that compare equal without being interchangeable: 1 / True / 1.0 ...
+        values = ([1, True, 1.0, 0, False, -0.0, (1,), (True,), 2, 2.0] * 2)[:call["n"]]
     data = make_input(values, call.get("lazy", False), call.get("delays"), call.get("end_delay", 0.0))
     kind = call.get("container")
     if kind == "deque":                 # a Sequence that supports integer indexing only (no slices)
@@ -455,6 +457,12 @@ def do_call(pool, call):
 def check_call(values, call, got):
     """-> None or (expected, observed)"""
     exp = [f_ref(x) for x in values]
+    if call.get("elem") == "equal-but-distinct":
+        # f(x) of equal-but-distinct elements are equal-but-distinct too (4 / 4 / 4.0): compare with the types
+        tr = lambda r: [(type(x).__name__, repr(x)) for x in r]  # noqa: E731
+        if call.get("ordered", True):
+            return None if tr(got) == tr(exp) else (tr(exp), tr(got))
+        return None if sorted(tr(got)) == sorted(tr(exp)) else ({"multiset": sorted(tr(exp))}, sorted(tr(got)))
     if call.get("ordered", True):
         if got != exp:
             return exp, got
